@@ -1032,6 +1032,14 @@ func genConc(t *rapid.T, cs *ConcSpec) *Program {
 		nb := rapid.IntRange(1, 40).Draw(t, "nbatches")
 		pfx := writerPrefix(w)
 		nk := rapid.IntRange(1, 5).Draw(t, "nkeys")
+		if p.Cfg.DeferredSort && chance(t, "bigbatches", 50) {
+			// deferred sorting of a large batch takes long enough for a second
+			// reader (or the merger) to meet the sorter
+			nk = rapid.IntRange(100, 600).Draw(t, "bignkeys")
+			if nb > 8 {
+				nb = 8
+			}
+		}
 		var bs []*Batch
 		childOnly := cs.Children && chance(t, "childonlywriter", 25)
 		for i := 1; i <= nb; i++ {
